@@ -52,14 +52,15 @@ def prelude(rng, case):
     """Commands that create state worth preserving."""
     gt = case['gt']
     sc = []
-    if rng.random() < 0.5:
+    timed = rng.random() < 0.5    # else: differential oracle applies
+    if timed and rng.random() < 0.6:
         sc += scripts.random_script(rng, case, kinds=['hold', 'hold_point'],
                                     max_cmds=2, horizon=6)
-    if rng.random() < 0.3:
+    if timed and rng.random() < 0.4:
         sc.append({'at': rng.randint(1, 5), 'cmd': 'stop',
                    'args': {'cycle_point': str(rng.randint(
                        1, gt['final']))}})
-    if rng.random() < 0.2:
+    if timed and rng.random() < 0.3:
         n = rng.choice(gt['names'])
         pts = wfgen.task_points(gt, n)
         sc.append({'at': rng.randint(1, 5), 'cmd': 'stop',
@@ -96,7 +97,12 @@ def compare_snapshots(ctx, A, B, detail, S=None):
                           'after restart', dict(detail, before=a, after=b))
         for fld in ('flows', 'held'):
             if a[fld] != b[fld]:
-                ctx.violation(f'C19:{fld}-not-restored',
+                mech = ''
+                hp = A['extras']['hold_point']
+                if fld == 'held' and hp is not None and not a['held'] \
+                        and b['held'] and int(a['point']) > int(hp):
+                    mech = ':released-beyond-hold-point'
+                ctx.violation(f'C19:{fld}-not-restored' + mech,
                               f'{tid} {fld} {a[fld]} at stop, {b[fld]} '
                               'after restart',
                               dict(detail, before=a, after=b))
@@ -143,7 +149,14 @@ def compare_snapshots(ctx, A, B, detail, S=None):
     ea, eb = A['extras'], B['extras']
     for fld in ('hold_point', 'tasks_to_hold', 'stop_task', 'broadcasts'):
         if ea[fld] != eb[fld]:
-            ctx.violation(f'C19:{fld}-not-restored',
+            mech = ''
+            hp = ea['hold_point']
+            if fld == 'tasks_to_hold' and hp is not None and \
+                    set(ea[fld]) <= set(eb[fld]) and all(
+                        int(x.split('/')[0]) > int(hp)
+                        for x in set(eb[fld]) - set(ea[fld])):
+                mech = ':released-beyond-hold-point'
+            ctx.violation(f'C19:{fld}-not-restored' + mech,
                           f'{fld} {ea[fld]!r} at stop, {eb[fld]!r} after '
                           'restart', dict(detail, before=ea, after=eb))
         elif ea[fld]:
@@ -229,7 +242,13 @@ def run_case(ctx, i, rng):
         if any(r.get('capped') for r in results):
             ctx.count('capped_runs')
             continue
-        # differential oracle
+        # differential oracle: only where nothing in the command prelude
+        # makes the set of jobs depend on timing (a hold / stop point / stop
+        # task issued at a fixed iteration catches different tasks when a
+        # restart shifts the run), i.e. broadcast-only or empty preludes
+        if any(a['cmd'] != 'broadcast' for a in pre):
+            ctx.count('differential_skipped_timed_prelude')
+            continue
         jobs = results[-1].get('world_jobs') or {}
         ctx.count('differential_compared')
         if set(jobs) != set(base_jobs):
